@@ -1391,6 +1391,168 @@ v("C19", "benign-gate-swapped", "benign", RAND,
   "        if timestep == self.next_execution_timestep and self.num_executions < self.config.agent_settings.max_executions:",
   "        if self.config.agent_settings.max_executions > self.num_executions and self.next_execution_timestep == timestep:", None, "operands and conjuncts swapped")
 
+# ------------------------------------------------------------------------------------------------ rules added after seeding round 3
+FTPC = P + "simulator/system/services/ftp/ftp_client.py"
+DBC = P + "simulator/system/applications/database_client.py"
+LINKOBS = P + "game/agent/observations/link_observation.py"
+
+v("C05", "dispatcher-folds-case", "break", CORE,
+  """        request_key = request[0]
+        request_options = request[1:]
+
+        if request_key not in self.request_types:
+            msg = (""",
+  """        request_key = request[0]
+        request_options = request[1:]
+        if request_key not in self.request_types and isinstance(request_key, str):
+            request_key = request_key.lower()
+
+        if request_key not in self.request_types:
+            msg = (""", "R5.1", "a misspelt name reaches another component")
+v("C05", "benign-dispatcher-unpacks-the-path", "benign", CORE,
+  """        request_key = request[0]
+        request_options = request[1:]
+
+        if request_key not in self.request_types:
+            msg = (""",
+  """        request_key, *request_options = request
+
+        if request_key not in self.request_types:
+            msg = (""", None, "star-unpacking instead of two subscripts")
+v("C05", "os-subtree-loses-its-power-check", "break", BASE,
+  """        rm.add_request("software_manager", RequestType(func=self._software_request_manager, validator=_node_is_on))""",
+  """        rm.add_request("software_manager", RequestType(func=self._software_request_manager))""", "R5.9",
+  "install / uninstall succeed on a node that is off")
+v("C05", "benign-validator-keyword-first", "benign", BASE,
+  """        rm.add_request("software_manager", RequestType(func=self._software_request_manager, validator=_node_is_on))""",
+  """        rm.add_request("software_manager", RequestType(validator=_node_is_on, func=self._software_request_manager))""", None,
+  "keyword order")
+v("C05", "last-admin-rule-after-the-write", "break", BASE,
+  """            if self._is_last_admin(username):
+                self.sys_log.info(f"{self.name}: Cannot disable User {username} as they are the only enabled admin")
+                return False
+            self.users[username].disabled = True
+""",
+  """            self.users[username].disabled = True
+            if not self.admins:
+                self.sys_log.info(f"{self.name}: Cannot disable User {username} as they are the only enabled admin")
+                return False
+""", "R5.10", "the refused disable leaves the account disabled")
+v("C05", "benign-last-admin-rule-in-a-local", "benign", BASE,
+  """            if self._is_last_admin(username):
+                self.sys_log.info(f"{self.name}: Cannot disable User {username} as they are the only enabled admin")
+                return False
+            self.users[username].disabled = True
+""",
+  """            only_admin = self._is_last_admin(username)
+            if only_admin:
+                self.sys_log.info(f"{self.name}: Cannot disable User {username} as they are the only enabled admin")
+                return False
+            self.users[username].disabled = True
+""", None, "the decision is held in a local, still before the write")
+v("C13", "timed-boot-starts-software-before-on", "break", BASE,
+  """            if self.operating_state == NodeOperatingState.BOOTING:
+                self.operating_state = NodeOperatingState.ON
+                self.sys_log.info(f"{self.config.hostname}: Turned on")
+                for network_interface in self.network_interfaces.values():
+                    network_interface.enable()
+
+                self._start_up_actions()
+""",
+  """            if self.operating_state == NodeOperatingState.BOOTING:
+                self._start_up_actions()
+                self.operating_state = NodeOperatingState.ON
+                self.sys_log.info(f"{self.config.hostname}: Turned on")
+                for network_interface in self.network_interfaces.values():
+                    network_interface.enable()
+""", "R13.5", "services refuse to start on a node that is still BOOTING")
+v("C13", "benign-start-up-before-the-nics", "benign", BASE,
+  """            if self.operating_state == NodeOperatingState.BOOTING:
+                self.operating_state = NodeOperatingState.ON
+                self.sys_log.info(f"{self.config.hostname}: Turned on")
+                for network_interface in self.network_interfaces.values():
+                    network_interface.enable()
+
+                self._start_up_actions()
+""",
+  """            if self.operating_state == NodeOperatingState.BOOTING:
+                self.operating_state = NodeOperatingState.ON
+                self.sys_log.info(f"{self.config.hostname}: Turned on")
+                self._start_up_actions()
+                for network_interface in self.network_interfaces.values():
+                    network_interface.enable()
+""", None, "start-up still after the ON store")
+v("C14", "room-for-connections-cures-everything", "break", SOFTWARE,
+  """            if self.health_state_actual == SoftwareHealthState.OVERWHELMED:
+                self.set_health_state(SoftwareHealthState.GOOD)
+""",
+  """            if self.health_state_actual != SoftwareHealthState.GOOD:
+                self.set_health_state(SoftwareHealthState.GOOD)
+""", "R14.3", "a new connection ends a compromise or a running fix")
+v("C14", "benign-overwhelmed-test-by-membership", "benign", SOFTWARE,
+  """            if self.health_state_actual == SoftwareHealthState.OVERWHELMED:
+                self.set_health_state(SoftwareHealthState.GOOD)
+""",
+  """            if self.health_state_actual in (SoftwareHealthState.OVERWHELMED,):
+                self.set_health_state(SoftwareHealthState.GOOD)
+""", None, "membership in a one-element tuple")
+v("C17", "ftp-success-unless-error", "break", FTPC,
+  """            if payload.status_code == FTPStatusCode.OK:
+                self.sys_log.info(f"{self.name}: File {src_folder_name}/{src_file_name} found in FTP server.")
+                return True
+            else:
+                self.sys_log.error(f"{self.name}: File {src_folder_name}/{src_file_name} does not exist in FTP server")
+                return False
+""",
+  """            if payload.status_code == FTPStatusCode.ERROR:
+                self.sys_log.error(f"{self.name}: File {src_folder_name}/{src_file_name} does not exist in FTP server")
+                return False
+            self.sys_log.info(f"{self.name}: File {src_folder_name}/{src_file_name} found in FTP server.")
+            return True
+""", "R17.8", "an unanswered RETR counts as success: restore reports True with nothing restored")
+v("C17", "benign-ftp-failure-first", "benign", FTPC,
+  """            if payload.status_code == FTPStatusCode.OK:
+                self.sys_log.info(f"{self.name}: File {src_folder_name}/{src_file_name} found in FTP server.")
+                return True
+            else:
+                self.sys_log.error(f"{self.name}: File {src_folder_name}/{src_file_name} does not exist in FTP server")
+                return False
+""",
+  """            if payload.status_code != FTPStatusCode.OK:
+                self.sys_log.error(f"{self.name}: File {src_folder_name}/{src_file_name} does not exist in FTP server")
+                return False
+            self.sys_log.info(f"{self.name}: File {src_folder_name}/{src_file_name} found in FTP server.")
+            return True
+""", None, "failure handled first, success still only for OK")
+v("C17", "disconnect-decided-from-the-client-wide-flag", "break", DBC,
+  """        if len(self.client_connections) == 0:
+            self.sys_log.warning(f"{self.name}: Unable to disconnect, no active connections.")""",
+  """        if not self.connected:
+            self.sys_log.warning(f"{self.name}: Unable to disconnect, no active connections.")""", "R17.8",
+  "the second of two connections can no longer be closed")
+v("C17", "benign-flag-only-logged", "benign", DBC,
+  """        if len(self.client_connections) == 0:
+            self.sys_log.warning(f"{self.name}: Unable to disconnect, no active connections.")""",
+  """        if len(self.client_connections) == 0:
+            self.sys_log.warning(f"{self.name}: Unable to disconnect, no active connections (connected={self.connected}).")""", None,
+  "the flag is printed, not decided from")
+v("C09", "link-band-by-ceiling", "break", LINKOBS,
+  """        if load == 0:
+            utilisation_category = 0
+        else:
+            utilisation_fraction = load / bandwidth
+            utilisation_category = int(utilisation_fraction * 9) + 1
+""",
+  """        utilisation_fraction = load / bandwidth
+        utilisation_category = math.ceil(utilisation_fraction * 9)
+""", "R9.13", "a full link reads 9, band 10 can never occur")
+v("C09", "benign-link-band-inlined", "benign", LINKOBS,
+  """            utilisation_fraction = load / bandwidth
+            utilisation_category = int(utilisation_fraction * 9) + 1
+""",
+  """            utilisation_category = 1 + int(9 * load / bandwidth)
+""", None, "same arithmetic without the intermediate local")
+
 # ------------------------------------------------------------------------------------------------ C02 / C09
 # the variants written together with the observation engine live next to the rules (sa/rules/c02.py, c09.py: VARIANTS)
 import sys
@@ -1403,6 +1565,13 @@ for _prop in ("C02", "C09"):
             continue  # repairs of open findings are exercised on the repaired tree itself
         C.setdefault(_prop, []).append({"id": f"v{_i:02d}", "kind": "break" if _kind == "breaking" else "benign", "file": _file,
                                         "rule": None, "what": _what, "edits": [{"old": o, "new": n} for o, n in _edits]})
+
+# ------------------------------------------------------------------------------------------------ seeded changes
+# the independently seeded changes archived under /verif/seeded, converted to text edits by tools/seeds_to_corpus.py
+_sp = os.path.join(HERE, "seeded_corpus.json")
+if os.path.exists(_sp):
+    for _prop, _items in json.load(open(_sp)).items():
+        C.setdefault(_prop, []).extend(_items)
 
 if __name__ == "__main__":
     os.makedirs(os.path.join(HERE, "corpus"), exist_ok=True)
